@@ -204,7 +204,9 @@ func (bs *bsess) endOfSession() {
 	// will publication when the session ends without DISCONNECT
 	if bs.accepted && !bs.gotDisconnect && bs.connect.HasWill {
 		bs.b.s.W.Log("broker:will", "will", bs.connect.WillMsg, bs.name+"|"+bs.connect.WillTopic, int64(bs.connect.WillQoS))
-		bs.b.route(bs, bs.connect.WillTopic, bs.connect.WillMsg, bs.connect.WillQoS, bs.connect.WillRetain)
+		if !bs.b.plan.NoRoute {
+			bs.b.route(bs, bs.connect.WillTopic, bs.connect.WillMsg, bs.connect.WillQoS, bs.connect.WillRetain)
+		}
 	}
 	bs.accepted = false
 }
